@@ -733,7 +733,12 @@ impl Value {
                             ctx.add_variable_from_value(&comprehension.accu_var, accu);
                         }
                     }
-                    t => todo!("Support {t:?}"),
+                    t => {
+                        return Err(ExecutionError::UnexpectedType {
+                            got: t.type_of().to_string(),
+                            want: "list or map".to_string(),
+                        })
+                    }
                 }
                 Value::resolve(comprehension.result.deref(), &ctx)
             }
